@@ -1,1 +1,69 @@
-fn main() { println!("{}", mrecordlog::BLOCK_NUM_BYTES); }
+//! mrlmc: bounded-exhaustive exploration of the real mrecordlog code.
+//!
+//!   mrlmc <property> <quick|thorough> --out <part.json>
+//!   mrlmc replay <replay.json>
+#![allow(dead_code)]
+mod exec;
+mod model;
+mod ops;
+mod props;
+mod report;
+mod seeds;
+mod seq;
+
+use std::path::PathBuf;
+
+pub fn geometry_name() -> &'static str {
+    if ops::TINY {
+        "tiny(64Bx4)"
+    } else {
+        "real(32KiBx4)"
+    }
+}
+
+fn main() {
+    let args: Vec<String> = std::env::args().collect();
+    if args.len() < 3 {
+        eprintln!("usage: mrlmc <property> <quick|thorough> [--out file] | mrlmc replay <file>");
+        std::process::exit(2);
+    }
+    seq::install_quiet_panic_hook();
+    let code = if args[1] == "replay" {
+        props::replay(&args[2])
+    } else {
+        let property = args[1].clone();
+        let tier = args[2].clone();
+        let mut out: Option<PathBuf> = None;
+        let mut i = 3;
+        while i < args.len() {
+            if args[i] == "--out" && i + 1 < args.len() {
+                out = Some(PathBuf::from(&args[i + 1]));
+                i += 1;
+            }
+            i += 1;
+        }
+        let seed: u64 = std::env::var("VERIF_SEED")
+            .ok()
+            .and_then(|s| s.parse().ok())
+            .unwrap_or(0);
+        let verif_root = std::env::var("VERIF_ROOT").unwrap_or_else(|_| "/verif".to_string());
+        let known = report::load_known(&format!("{}/KNOWN_FINDINGS.json", verif_root));
+        let mut part = report::Part::new(&property, &tier, seed);
+        props::run(&mut part);
+        let (json, code) = part.to_json(
+            &PathBuf::from(
+                std::env::var("VERIF_REPLAY_DIR")
+                    .unwrap_or_else(|_| format!("{}/replays", verif_root)),
+            ),
+            &known,
+        );
+        let text = serde_json::to_string_pretty(&json).unwrap();
+        match out {
+            Some(p) => std::fs::write(p, text).expect("write part file"),
+            None => println!("{}", text),
+        }
+        code
+    };
+    exec::cleanup_scratch_base();
+    std::process::exit(code);
+}
